@@ -66,7 +66,8 @@ class landuse(PseudoNetCDFFile):
 
         self.createDimension('ROW', rows)
         self.createDimension('COL', cols)
-        first_line, =  self._rffile.read('8s')
+        # an old style file starts with data, which need not be text
+        first_line = self._rffile.infile.read(8).decode('latin1')
         if first_line == 'LUCAT11 ':
             self.createDimension('LANDUSE', 11)
             self._newstyle = True
